@@ -164,17 +164,30 @@ theorem backup_self_fold (d : List (Nat × FileSt)) (hd : AscF d) (l : List (Nat
 def backupSt (s : St) (db : DB) (dest : String) : St :=
   let d := dirOf s db
   let old := (s.world.get dest).getD DirSt.empty
-  let data := d.data.foldl (fun acc (x : Nat × FileSt) => setFile acc x.1 { x.2 with synced := x.2.bytes.size }) old.data
-  let hint := match d.hint with
-    | some h => some h
-    | none => old.hint
-  { s with world := s.world.set dest { old with data := data, hint := hint } }
+  let data := d.data.map (fun (x : Nat × FileSt) => (x.1, { x.2 with synced := x.2.bytes.size }))
+  { s with world := s.world.set dest { old with data := data, hint := d.hint } }
 
 theorem backup_eq_st {s : St} {db : DB} (hs : s.db = some db) (dest : String) :
     backup s dest = (backupSt s db dest, .ok) := by
   unfold backup withDB backupSt
   simp only [hs]
-  rfl
+
+theorem getFile_map_sync (l : List (Nat × FileSt)) (id : Nat) :
+    getFile (l.map (fun (x : Nat × FileSt) => (x.1, ({ x.2 with synced := x.2.bytes.size } : FileSt)))) id
+      = (getFile l id).map (fun f => { f with synced := f.bytes.size }) := by
+  induction l with
+  | nil => rfl
+  | cons x rest ih =>
+    obtain ⟨i, f⟩ := x
+    simp only [List.map_cons, getFile]
+    by_cases e : i = id
+    · rw [if_pos e, if_pos e]; rfl
+    · rw [if_neg e, if_neg e]; exact ih
+
+theorem AscF_map_sync (l : List (Nat × FileSt)) (h : AscF l) :
+    AscF (l.map (fun (x : Nat × FileSt) => (x.1, ({ x.2 with synced := x.2.bytes.size } : FileSt)))) := by
+  unfold AscF at h ⊢
+  exact List.pairwise_map.mpr h
 
 theorem Step_backup (s : St) (dest : String) : Step s (backup s dest).1 := by
   intro db hs
@@ -184,29 +197,17 @@ theorem Step_backup (s : St) (dest : String) : Step s (backup s dest).1 := by
   · subst hne
     refine ⟨rfl, Nat.le_refl _, fun ht => ?_⟩
     have hfs : filesOf (backupSt s db db.dir) db
-        = (filesOf s db).foldl (fun acc (x : Nat × FileSt) =>
-              setFile acc x.1 { x.2 with synced := x.2.bytes.size }) (filesOf s db) := by
+        = (filesOf s db).map (fun (x : Nat × FileSt) => (x.1, ({ x.2 with synced := x.2.bytes.size } : FileSt))) := by
       unfold filesOf backupSt
       simp only []
       unfold dirOf
       rw [get_set_self]
       rfl
     rw [hfs]
-    obtain ⟨ha, hb⟩ := backup_self_fold (filesOf s db) ht.1 (filesOf s db) (filesOf s db)
-      (fun _ h => h) ht.1 (fun _ => rfl)
-    refine ⟨⟨ha, fun id hid => ?_⟩, fun id f hf => ?_⟩
-    · have := hb id
-      rw [ht.2 id hid] at this
-      simpa using this
-    · have := hb id
-      rw [hf] at this
-      cases hg : getFile ((filesOf s db).foldl (fun acc (x : Nat × FileSt) =>
-          setFile acc x.1 { x.2 with synced := x.2.bytes.size }) (filesOf s db)) id with
-      | none => rw [hg] at this; cases this
-      | some f' =>
-        rw [hg] at this
-        simp only [Option.map_some, Option.some.injEq] at this
-        exact ⟨f', rfl, by rw [this]; exact FExt.refl _, fun _ => this⟩
+    refine ⟨⟨AscF_map_sync _ ht.1, fun id hid => ?_⟩, fun id f hf => ?_⟩
+    · rw [getFile_map_sync, ht.2 id hid]; rfl
+    · refine ⟨{ f with synced := f.bytes.size }, ?_, FExt.refl _, fun _ => rfl⟩
+      rw [getFile_map_sync, hf]; rfl
   · refine Adv.same_dir rfl ?_ rfl
     unfold backupSt
     exact get_set_ne _ _ _ _ (fun e => hne e.symm)
